@@ -5,9 +5,7 @@ import subprocess, sys, re
 def stmt(imports, lemma):
     src = imports + "\nSet Printing Width 96.\nSet Printing Depth 1000.\nCheck (%s).\n" % lemma
     out = subprocess.run(["coqtop", "-Q", "/verif/coq", "SMD", "-quiet"], input=src, text=True, capture_output=True).stdout
-    m = re.search(r"^" + re.escape(lemma.split('.')[-1]) + r"\s*\n?\s*:(.*?)(?=\n\S|\Z)", out, re.S | re.M)
-    if not m:
-        m = re.search(r":(.*)", out, re.S)
+    m = re.search(re.escape(lemma.split('.')[-1]) + r"\s*\n?\s*:\s(.*?)(?=\n\s*\nCoq <|\nCoq <|\Z)", out, re.S)
     return m.group(1).strip()
 if __name__ == "__main__":
     imports = open(sys.argv[1]).read()
